@@ -437,4 +437,9 @@ def stages(tier):
                      budget_s={"quick": 100, "thorough": 1200}),
             FuzzStage("fuzz", "C16", [("raw", False), ("raw", True), ("hyp", False)],
                       {"quick": 3000, "thorough": 60000}, run_case, fuzz_to_case, fuzz_seeds,
-                      budget_s={"quick": 45, "thorough": 600}, max_len=6000)]
+                      budget_s={"quick": 45, "thorough": 600}, max_len=6000,
+                      tokens=['"version"', '"targets"', '"elements"', '"name"', '"signed_by"',
+                              '"message"', '"signature"', '"tweak"', '"type"', '"root"',
+                              '"sgx_root"', '"ui"', '"signer"', '"device"', '"attestation"',
+                              '"x509_pem"', '"sgx_quote"', '"sgx_attestation_key"', '"key"',
+                              '"auth_data"', '"custom_data"', ":1", ":2"])]
